@@ -52,8 +52,6 @@ MANIFEST = {
 }
 
 NOBODY = 65534
-F_FIFO = "C19-fifo-under-c"
-F_THROUGH = "C19-cc-through-file"
 
 # ---------------------------------------------------------------- child processes
 
@@ -331,14 +329,11 @@ def take_facts(p):
             os.stat(q)
             return True
         except OSError:
-            return os.path.islink(q)
+            return False
 
     par = chain[0]
     f["parDir"] = is_dir(par)
     f["parW"] = os.access(par, os.W_OK)
-    anc = next((q for q in chain if is_dir(q)), None)
-    f["ancDir"] = anc is not None
-    f["ancW"] = bool(anc) and os.access(anc, os.W_OK)
     near = next((q for q in chain if exists(q)), None)
     f["nearDir"] = bool(near) and is_dir(near)
     f["nearW"] = bool(near) and os.access(near, os.W_OK)
@@ -464,12 +459,7 @@ def sat_doc(mode, f, spelling=None):
 
 
 def finding_of(mode, f, real_ok):
-    """signature match of the two open findings (row 17)"""
-    c = mode.count("c")
-    if real_ok and c == 2 and not f["parDir"] and not f["nearDir"]:
-        return F_THROUGH
-    if not real_ok and c > 0 and "f" in mode and f["isFifo"]:
-        return F_FIFO
+    """signature match of open findings of the path stage: none at present (F19c and F19f are repaired)"""
     return None
 
 
@@ -485,7 +475,7 @@ def canon_paths(obj, root):
 
 
 def facts_key(f):
-    return "".join("1" if f[k] else "0" for k in ("ex", "statOk", "isDir", "isFile", "isFifo", "r", "w", "x", "parDir", "parW", "ancDir", "ancW", "nearDir", "nearW"))
+    return "".join("1" if f[k] else "0" for k in ("ex", "statOk", "isDir", "isFile", "isFifo", "r", "w", "x", "parDir", "parW", "nearDir", "nearW"))
 
 
 def path_stage(ctx: Ctx, alphabet, nflags):
@@ -653,10 +643,7 @@ def path_stage(ctx: Ctx, alphabet, nflags):
     return bool(viol)
 
 
-KNOWN_TEXT = {
-    F_FIFO: "an existing FIFO passes mode 'f' but is rejected as 'path already exists' as soon as 'c' is added (mode %r on %s)",
-    F_THROUGH: "mode with 'cc' accepts a path below a non-directory: the ancestor search skips existing non-directories (mode %r on %s)",
-}
+KNOWN_TEXT = {}
 
 
 def kind_of(f):
@@ -677,7 +664,7 @@ def kind_of(f):
     if f["ex"]:
         k += ":" + "".join(c if f[c] else "-" for c in "rwx")
     else:
-        k += ":" + ("pw" if (f["parW"] if f["parDir"] else f["ancW"]) else "p-")
+        k += ":" + ("pw" if (f["parW"] if f["parDir"] else f["nearW"]) else "p-")
     return k
 
 
